@@ -97,6 +97,8 @@ LayoutProg(kind, X, Y) ==
                                                                       <<15, 11>>, <<11, 15>>, <<15, 10>>, <<10, 15>>, <<15, 12>>, <<12, 15>>,
                                                                       <<14, 1>>, <<1, 14>>, <<14, 14>>}}
              \cup {Bin(op, p[1], p[2], <<"r", "r">>) : op \in {"add", "mul", "sub"}, p \in {<<14, 1>>, <<1, 14>>, <<14, 14>>, <<14, 2>>}}
+             \* a stationary factor (15: zero gradient, curvature) on either side of every operation
+             \cup {Bin(op, p[1], p[2], f) : op \in {"add", "sub", "mul", "div"}, p \in {<<1, 15>>, <<15, 1>>, <<2, 15>>, <<15, 2>>, <<5, 15>>}, f \in {<<"r", "r">>, <<"v", "v">>}}
              \* 9 differs from A in ONE highest-order entry only, on lists aligned (6) and not aligned (1, 8) with its own
              \cup {Ins2(op, p[1], p[2]) : op \in {"eq", "ne"}, p \in {<<1, 9>>, <<9, 1>>, <<6, 9>>, <<9, 6>>, <<8, 9>>, <<9, 8>>}}
   IN [key |-> "layout/" \o kind \o "/" \o ToString(X) \o ToString(Y), leaves |-> leaves, code |-> SetToSeq(arith \cup rel)]
@@ -107,14 +109,18 @@ ReqLists == LET all == Names \cup {Absent}
                 RECURSIVE L(_)
                 L(n) == IF n = 0 THEN {<<>>} ELSE LET S == L(n - 1) IN S \cup {Append(s, x) : s \in {t \in S : Len(t) = n - 1}, x \in all}
             IN {s \in L(Cardinality(all)) : NoDup(s)}
-\* registers: 1 D1(X)  2 D2(X)  3 D2(X)  4 = 2 * 3 (so that the manifold of a product is read back too)
+\* registers: 1 D1(X)  2 D2(X)  3 D2(X)  4 D2(X) stationary  5 = 2 * 3  6 = 2 * 4  7 = 4 * 2
 ReadProg(X) ==
   [key |-> "read/" \o ToString(X),
-   leaves |-> << Leaf("D1", 1, FOfRat(7, 4), X), Leaf("D2", 2, FOfRat(5, 4), X), Leaf("D2", 3, FOfRat(3, 4), X) >>,
-   code |-> << Bin("mul", 2, 3, <<"r", "r">>) >> \o
-            SetToSeq({[op |-> "gradient1", a |-> a, names |-> r] : r \in ReqLists, a \in {1, 2, 4}}
-                     \cup {[op |-> "gradient2", a |-> a, names |-> r] : r \in ReqLists, a \in {2, 4}}
-                     \cup {[op |-> "manifold", a |-> a, names |-> r] : r \in ReqLists, a \in {2, 4}})]
+   \* 4 a second-order number whose FIRST derivatives are all exactly zero while its second-order array is not (a stationary
+   \*   point: x * y at the origin) - still a number that depends on its names
+   leaves |-> << Leaf("D1", 1, FOfRat(7, 4), X), Leaf("D2", 2, FOfRat(5, 4), X), Leaf("D2", 3, FOfRat(3, 4), X),
+                 [t |-> "D2", re |-> FOfRat(9, 8), vars |-> X, d |-> [i \in 1..Len(X) |-> FZ], d2half |-> [i \in 1..Len(X) |-> [j \in 1..Len(X) |-> FOfRat(i + j, 16)]]] >>,
+   \* 5 = 2 * 3, 6 = 2 * 4, 7 = 4 * 2 (the manifold of a product is read back too, a stationary factor on either side)
+   code |-> << Bin("mul", 2, 3, <<"r", "r">>), Bin("mul", 2, 4, <<"r", "r">>), Bin("mul", 4, 2, <<"r", "r">>) >> \o
+            SetToSeq({[op |-> "gradient1", a |-> a, names |-> r] : r \in ReqLists, a \in {1, 2, 4, 5}}
+                     \cup {[op |-> "gradient2", a |-> a, names |-> r] : r \in ReqLists, a \in {2, 4, 5, 6, 7}}
+                     \cup {[op |-> "manifold", a |-> a, names |-> r] : r \in ReqLists, a \in {2, 4, 5, 6}})]
 ReadProgs == {ReadProg(X) : X \in VarLists}
 
 \* ---- kind family (C18) ---------------------------------------------------------------------
